@@ -120,7 +120,8 @@ def run(ctx):
                              "documented extension as documented (README tables)", case={"cfg": t["cfg"]},
                         observed=tables, where="router.py tables / mime_types.py")
         else:
-            e = t["ev"][tv.reached]
+            e = t["ev"][tv.reached] if tv.reached > 0 else {"path": "(prefix not diagnosed)", "sup": "?", "route": "?",
+                                                             "rf": "?", "guess": "?"}
             v.violation(what=f"routing observation differs from the specification (mimetypes={t['cfg']}): "
                              f"path={e['path']!r} is_supported={e['sup']} get_extractor={e['route']} "
                              f"read_file={e['rf']} mime-guess={e['guess']!r}",
